@@ -136,7 +136,7 @@ def read_csv(
 
     contents, row_unit = _parse_row(lines_no_header[0], units)
     kwargs: Dict[str, Any] = {"contents": contents}
-    if row_unit is not None or units is not None:
+    if row_unit or units is not None:
         kwargs["units"] = row_unit or units
     if decay_data is not None:
         kwargs["decay_data"] = decay_data
@@ -154,7 +154,7 @@ def read_csv(
     for row in lines_no_header[1:]:
         contents, row_unit = _parse_row(row, units)
         kwargs = {"add_contents": contents}
-        if row_unit is not None or units is not None:
+        if row_unit or units is not None:
             kwargs["units"] = row_unit or units
         inv.add(**kwargs)
 
